@@ -122,6 +122,7 @@ LeafNode(l) ==
     [] l = "bb" -> Nd("Bytes", "b", <<98, 99>>, "", <<>>, <<>>)
     [] l = "be" -> Nd("Bytes", "b", <<>>, "", <<>>, <<>>)
     [] l = "gget" -> Nd("GGet", "a", <<>>, "", <<KeyK>>, <<>>)
+    [] l = "lget" -> Nd("LGet", "a", <<>>, "", <<IntN(<<>>), KeyK>>, <<>>)
     [] l = "sender" -> Nd("Txn", "b", <<>>, "Sender", <<>>, <<>>)
     [] l = "oc" -> Nd("Txn", "u", <<>>, "OnCompletion", <<>>, <<>>)
     [] l = "appid" -> Nd("Txn", "u", <<>>, "ApplicationID", <<>>, <<>>)
@@ -195,6 +196,15 @@ StmtProds(h) ==
   \cup (IF "GPut" \in Stmts THEN {P(Nd("GPut", "n", <<>>, "", <<>>, <<>>), "GPut", <<U>>)} ELSE {})
   \cup (IF "GPutB" \in Stmts THEN {P(Nd("GPut", "n", <<>>, "", <<>>, <<>>), "GPut", <<B>>)} ELSE {})
   \cup (IF "GDel" \in Stmts THEN {P(Nd("GDel", "n", <<>>, "", <<KeyK>>, <<>>), "", <<>>)} ELSE {})
+  \cup (IF "LPut" \in Stmts THEN {P(Nd("LPut", "n", <<>>, "", <<>>, <<>>), "LPut", <<U>>)} ELSE {})
+  \cup (IF "LDel" \in Stmts THEN {P(Nd("LDel", "n", <<>>, "", <<IntN(<<>>), KeyK>>, <<>>), "", <<>>)} ELSE {})
+  \* a MaybeValue evaluated once, its two results read in either order (both logged)
+  \cup (IF "MVMacros" \in Stmts
+        THEN LET mv == Nd("MV", "n", <<>>, "GGetEx", <<IntN(<<>>), KeyK>>, <<1>>)
+                 has == Nd("Log", "n", <<>>, "", <<Nd("Op", "b", <<>>, "itob", <<Nd("MVHas", "u", <<>>, "", <<>>, <<1>>)>>, <<>>)>>, <<>>)
+                 val == Nd("Pop", "n", <<>>, "", <<Nd("MVVal", "a", <<>>, "", <<>>, <<1>>)>>, <<>>)
+             IN {P(Nd("Seq", "n", <<>>, "", <<mv, has, val>>, <<>>), "", <<>>), P(Nd("Seq", "n", <<>>, "", <<mv, val, has>>, <<>>), "", <<>>)}
+        ELSE {})
   \cup (IF "Assert" \in Stmts THEN {P(Nd("Assert", "n", <<>>, "", <<>>, <<>>), "", <<U>>)} ELSE {})
   \cup (IF "Assert2" \in Stmts THEN {P(Nd("Assert", "n", <<>>, "", <<>>, <<>>), "", <<U, U>>)} ELSE {})
   \* optimiser-shaped one-node statements on a uint64 variable v:
@@ -283,6 +293,7 @@ Mk(tk, kids, inMain) ==
          LET d == nd.i[1] IN
          Nd("For", "n", <<>>, "", <<CtrZero(d), Nd("Op", "u", <<>>, "<", <<CtrLoad(d), IntN(<<3>>)>>, <<>>), CtrInc(d), kids[1]>>, <<d>>)
     [] tk.x = "GPut" -> [nd EXCEPT !.a = <<KeyK, kids[1]>>]
+    [] tk.x = "LPut" -> [nd EXCEPT !.a = <<IntN(<<>>), KeyK, kids[1]>>]
     [] tk.x = "LogU" -> [nd EXCEPT !.a = <<Nd("Op", "b", <<>>, "itob", <<kids[1]>>, <<>>)>>]
     [] tk.x = "Call" -> [nd EXCEPT !.a = IF Guarded /\ ~inMain THEN <<DecP1>> \o kids ELSE kids]
     [] OTHER -> IF tk.ar = 0 THEN nd ELSE [nd EXCEPT !.a = kids]
